@@ -634,11 +634,19 @@ class Origins:
         stack = [expr]
         while stack:
             n = stack.pop()
+            if isinstance(n, ast.keyword):
+                stack.append(n.value)
+                continue
+            if isinstance(n, ast.comprehension):
+                stack.append(n.iter)
+                continue
             if not isinstance(n, ast.expr):
                 continue
             yield n
             if isinstance(n, au.SCOPE_NODES) and n is not expr:
                 continue
+            if isinstance(n, ast.Compare):
+                continue   # a comparison yields booleans: neither operand is the origin of the *value*
             if isinstance(n, ast.Subscript):
                 stack.append(n.value)
                 if isinstance(n.slice, ast.Constant):
@@ -647,7 +655,7 @@ class Origins:
                     # frame.loc[mask, 'col']: keep the constant column selectors (they name the value), drop masks
                     stack.extend(e for e in n.slice.elts if isinstance(e, ast.Constant))
                 continue
-            stack.extend(reversed([c for c in ast.iter_child_nodes(n) if isinstance(c, ast.expr) or isinstance(c, (ast.keyword, ast.comprehension))]))
+            stack.extend(reversed([c for c in ast.iter_child_nodes(n) if isinstance(c, (ast.expr, ast.keyword, ast.comprehension))]))
 
     def expand(self, expr, at=None, _seen=None, _depth=0):
         """Yield (node, env_stmt) for expr and everything it is defined from."""
